@@ -113,7 +113,7 @@ Definition keep_sel := sel_of keep_fields.
 (* the header as a val: what the rules of FileHeader.Validate and the package's priorityCode literal say about it *)
 Definition hdr_node (hv : val) : list rtree := nodes hidp_cur T_FileHeader hv.
 Definition hdr_rules_ok (hv : val) : bool :=
-  forallb (fun h => rec_validb V_FileHeader (rscal h) && has_str "priorityCode" (bstr "01") h) (hdr_node hv).
+  forallb (fun h => rec_validb hdr_core_rules (rscal h) && has_str "priorityCode" (bstr "01") h) (hdr_node hv).
 
 Definition hdr_start : val := Eval vm_compute in field_default T_File "Header".
 
@@ -130,10 +130,10 @@ Proof.
   cbn [rscal] in Hrules. rewrite typed_struct in Ht.
   (* the four facts the rules give *)
   match type of Hrules with rec_validb _ ?r = true => set (R := r) in * end.
-  pose proof (pins_sound V_FileHeader "recordSize" (bstr "094") R ltac:(vm_compute; reflexivity) Hrules) as P1.
-  pose proof (pins_sound V_FileHeader "blockingFactor" (bstr "10") R ltac:(vm_compute; reflexivity) Hrules) as P2.
-  pose proof (pins_sound V_FileHeader "formatCode" (bstr "1") R ltac:(vm_compute; reflexivity) Hrules) as P3.
-  pose proof (reject_if_empty_sound V_FileHeader "FileIDModifier" R ltac:(vm_compute; reflexivity) Hrules) as P4.
+  pose proof (pins_sound hdr_core_rules "recordSize" (bstr "094") R ltac:(vm_compute; reflexivity) Hrules) as P1.
+  pose proof (pins_sound hdr_core_rules "blockingFactor" (bstr "10") R ltac:(vm_compute; reflexivity) Hrules) as P2.
+  pose proof (pins_sound hdr_core_rules "formatCode" (bstr "1") R ltac:(vm_compute; reflexivity) Hrules) as P3.
+  pose proof (len_pinned_sound hdr_core_rules "FileIDModifier" R ltac:(vm_compute; reflexivity) Hrules) as P4.
   unfold has_str in Hprio. cbn [rscal] in Hprio. fold R in Hprio.
   clear Hrules.
   (* the header's fields *)
